@@ -79,6 +79,8 @@ class Vector(MutableSequence[TScalar]):
         Returns:
             A vector data object.
         """
+        # Iterate over the input only once: it may be a generator or another one-shot iterator.
+        values = list(values)
         if not values:
             if not value_type:
                 raise TypeError("You must specify values as non-empty or specify value_type.")
